@@ -302,14 +302,17 @@ def main(tier):
     if tier == 'replay':
         return replay_file(sys.argv[2])
     chk = Check('C17', 'model_checking', tier)
-    budget = 150 if tier == 'quick' else 870
+    budget = 150 if tier == 'quick' else 900
     deadline_at = chk.t0 + budget
     try:
         root = scratch('c17')
         exes, d = build(('asan', 'tsan'), root)
         ne1 = run_e1(chk, d)
         jobs = []
-        for words, pb, db in make_cases(tier):
+        caselist = [(w, pb, db, 0) for w, pb, db in make_cases('quick')]
+        if tier != 'quick':     # round 0 of the thorough tier is the complete quick tier; deeper rounds only start before the soft deadline
+            caselist += [(w, pb, db, 1 if len(w) == 2 else 2 if len(w) == 3 and db < 2 else 3) for w, pb, db in make_cases(tier)]
+        for words, pb, db, rnd in caselist:
             for fl in ('asan', 'tsan'):       # every execution runs under ASan ("nor touches freed memory"); no separate plain run
                 p, dv = pb, db
                 if fl == 'tsan':      # data races are a bonus for this property (DESIGN 1.5): one preemption level less, <= 3 threads
@@ -317,7 +320,7 @@ def main(tier):
                     if len(words) > 3:
                         continue
                 wt = weight(words, p, dv, fl)
-                jobs.append({'case': {'threads': words}, 'words': words, 'exe': exes[fl], 'flavour': fl, 'pb': p, 'db': dv, 'spurious': 1,
+                jobs.append({'case': {'threads': words}, 'words': words, 'exe': exes[fl], 'flavour': fl, 'pb': p, 'db': dv, 'spurious': 1, 'round': rnd,
                              'mix': ''.join(w[0] for w in words), 'weight': wt, 'jobs': 16 if wt > 500 else 8 if wt > 100 else 1, 'count_flavour': 'asan'})
         mx = mclib.Matrix(chk, [REPO, d], allowed_status=('ok', 'blocked'), projection=projection)
         results = mx.run(jobs, oracle, deadline_at)
